@@ -272,6 +272,59 @@ def nested_j_scenarios(rng, viol, stats, samples):
             pr.destroy()
 
 
+def nested_after_iou_scenarios(viol, stats, samples):
+    """A nested redo that owns a jobserver (`redo -jM sub`, M = 2 and M = 1) finishes while an IOU of the OUTER tree is
+    pending on the outer cheat pipe (A's redo-ifchange waited for a lock with its token given away, was followed by the log
+    viewer, borrowed a token to come back and exited without one; the IOU is settled when A's script ends).  The nested
+    jobserver must neither see nor consume that IOU: every jobserver owner ends with the tokens it started with, and
+    the three jobs of phase 2 never run more than two at a time under `redo -j2`."""
+    for M in (2, 1):
+        pr = Project()
+        try:
+            rec = 'echo "B $$ %s $(date +%%s%%N)" >>"$VERIF_WORK"; echo "S $$ %s $(date +%%s%%N)" >>"$VERIF_WORK"; sleep 0.9; echo "E $$ %s $(date +%%s%%N)" >>"$VERIF_WORK"'
+            pr.write("all.do", "redo-ifchange A B || echo phase1-failed >>notes\nredo-ifchange X1 X2 X3\n")
+            pr.write("A.do", "sleep 0.4\nredo-ifchange L\nsleep 3.6\necho a\n")
+            pr.write("B.do", "redo-ifchange L M N\necho b\n")
+            pr.write("L.do", "sleep 1.3\necho L\n")
+            pr.write("M.do", "sleep 2.7\nrc=0\nredo -j%d sub || rc=$?\necho \"nested rc=$rc\" >>notes\nexit $rc\n" % M)
+            pr.write("N.do", "sleep 3.0\necho N\n")
+            pr.write("sub.do", "redo-ifchange sub1 sub2\necho sub\n")
+            pr.write("sub1.do", "sleep 0.15\necho sub1\n")
+            pr.write("sub2.do", "sleep 0.15\necho sub2\n")
+            for x in ("X1", "X2", "X3"):
+                pr.write(x + ".do", (rec % (x, x, x)) + "\necho %s\n" % x)
+            r = sched.run_cmds(pr, [["redo", "-j2", "all"]], timeout=60)[0]
+            stats["runs"] += 1
+            stats["nested_after_iou"] = stats.get("nested_after_iou", 0) + 1
+            stats["nested_after_iou_cheats"] = stats.get("nested_after_iou_cheats", 0) + sum(1 for e in r.trace if e[2] == "js.cheat")
+            notes = (pr.read("notes") or b"").decode()
+            ov = sched.max_overlap([w for w in r.work if w[2] in ("X1", "X2", "X3")])
+            problems = []
+            if r.timed_out:
+                problems.append("run did not finish within 60 s")
+            if r.rc != 0:
+                problems.append("`redo -j2 all` exited %d although every script succeeds" % r.rc)
+            if "on exit: expected" in r.err:
+                problems.append("a jobserver owner did not end with the tokens it started with: " + re.search(r"on exit: expected[^\n]*", r.err).group(0))
+            if "nested rc=0" not in notes:
+                problems.append("the nested `redo -j%d sub` reported %r" % (M, notes.strip()))
+            if ov > 2:
+                problems.append("%d of the three phase-2 scripts were working at the same time under -j2" % ov)
+            rep = sched.replay_tokens(r.trace)
+            for grp, ans, nev in rep:
+                stats["events"] += nev
+                stats["groups"] += 1
+                if not ans.startswith("ok"):
+                    problems.append("token trace rejected by the model (jobserver %s): %s" % (grp, ans))
+            if problems:
+                p = write_replay("C08", "nested-iou-%d" % M, dict(kind="impl-monitor+trace", nested="redo -j%d sub" % M, problems=problems, stderr=r.err[-1500:], notes=notes, work=r.work,
+                                                                  scenario="all.do: redo-ifchange A B; redo-ifchange X1 X2 X3.  A.do: sleep 0.4; redo-ifchange L; sleep 3.6.  B.do: redo-ifchange L M N.  L.do: sleep 1.3.  M.do: sleep 2.7; redo -jM sub.  N.do: sleep 3.  redo -j2 all (log viewer on)"))
+                viol.append(Violation("C08", p, "nested `redo -j%d sub` while an IOU of the outer tree is pending: %s" % (M, "; ".join(problems))))
+                return
+        finally:
+            pr.destroy()
+
+
 def makeflags_level(ctx, rng, viol):
     """The jobserver's wire format: `parse_makeflags` (hook verif_parse_makeflags) against `Makeflags.parse` on token
     sequences around the two option spellings, and the value a real `redo -jN` exports to its scripts against
@@ -446,6 +499,8 @@ def run(ctx):
         lock_wait_scenarios(random.Random(ctx["seed"] * 131 + 8), viol, stats, samples)
     if not viol:
         nested_j_scenarios(random.Random(ctx["seed"] * 137 + 8), viol, stats, samples)
+    if not viol:
+        nested_after_iou_scenarios(viol, stats, samples)
     return dict(evaluations=stats["events"], distinct_nontrivial=stats["runs"],
                 rule="MAKEFLAGS strings (all sequences of up to 3 tokens over the option spellings, digits, signs, commas, blanks; seeded longer ones; i32 boundary values) through the real parser and the model, and the value a real redo -jN exports against Makeflags.format; two directed scenarios for the borrowed-token path (followed job waits for a locked target, wakes up with no token free, cheats; then exits with the loan / releases it again) under an inherited jobserver; three directed lock-contention runs under an inherited jobserver (two concurrent top-level commands want the same target; the waiter has all its slots busy first, gives up its token, blocks on the lock; the other build fails / completes the target; k = 0..2 tokens in the pipe, redo / redo-ifchange, -k, with and without log): pipe contents afterwards, model replay, final model pipe and IOU count; two nested `redo -jM sub` runs (M = 1..2) inside `redo -jN` / an inherited jobserver of N-1 tokens (N = 4..5; fan and diamond sub-graphs of 5-6 recording scripts): overlap of the sub-build's work sections <= M (+1 with log), overall <= N, outer tokens conserved, every jobserver's trace replayed; seeded random build graphs (3-9 targets; chains, fans, diamonds, layers; failing, checksummed, always targets) built at -j1..4 with own or inherited (MAKEFLAGS) jobserver, with and without log capture, first build and rebuild; every primitive token event of every process is replayed by the Lean acceptor; distinct = runs",
                 samples=samples, traces_validated_against_impl=stats["groups"], disagreements_checked=stats["events"], distribution=stats, known_hit=known_hit)
